@@ -1395,6 +1395,326 @@ static void run_block_scenario(vrt_rng *r, int idx, int max_es)
 }
 
 /* ======================================================================= */
+/* mode=blockmig (C06): the blocked counters stay exact when units that carry a
+ * migration request block (the request is handled inside the suspend callback)
+ * or are asked to migrate while they are blocked */
+enum { MB_EVENTUAL = 0, MB_COND, MB_SUSPEND, MB_MUTEX, MB_JOIN, MB_YIELD, MB_NKINDS };
+static const char *mb_name[] = { "eventual", "cond", "self_suspend", "mutex", "join", "yield" };
+#define MBMAXU 24
+#define MBMAXSTEP 5
+#define MBMAXP 4
+typedef struct {
+    int id;
+    ABT_thread th;
+    int nsteps;
+    int kind[MBMAXSTEP], obj[MBMAXSTEP], mig_before[MBMAXSTEP]; /* mig_before: target pool index + 1, 0 = none */
+    int waiting, woken, done, started; /* atomic */
+    int slices_in_pool[MBMAXP];
+} mbunit_t;
+static struct {
+    mbunit_t u[MBMAXU];
+    int n, npools;
+    ABT_pool pools[MBMAXP];
+    ABT_eventual ev[MBMAXU * MBMAXSTEP];
+    ABT_mutex mx[MBMAXU * MBMAXSTEP];
+    ABT_thread child[MBMAXU * MBMAXSTEP];
+    int child_go[MBMAXU * MBMAXSTEP];
+    ABT_mutex cmx;
+    ABT_cond cnd;
+    int cond_flag[MBMAXU * MBMAXSTEP];
+    int sampler_stop, resumer_stop;
+    uint64_t seed;
+} g_mb;
+static int c_mbscen, c_mbsteps[MB_NKINDS], c_mbreq_self, c_mbreq_other, c_mbexact, c_mbsamples, c_mbmoved_while_blocking;
+
+static void mbchild_fn(void *arg)
+{
+    int *go = (int *)arg;
+    while (!__atomic_load_n(go, __ATOMIC_SEQ_CST))
+        ABT_thread_yield();
+}
+static int mb_pool_index(ABT_pool p)
+{
+    for (int i = 0; i < g_mb.npools; i++)
+        if (g_mb.pools[i] == p)
+            return i;
+    return -1;
+}
+static void mbunit_fn(void *arg)
+{
+    mbunit_t *u = (mbunit_t *)arg;
+    VRT_ABT(ABT_self_get_thread(&u->th));
+    __atomic_store_n(&u->started, 1, __ATOMIC_SEQ_CST);
+    for (int s = 0; s < u->nsteps && vrt_num_violations() == 0; s++) {
+        int k = u->kind[s], o = u->obj[s];
+        ABT_pool before, after;
+        VRT_ABT(ABT_self_get_last_pool(&before));
+        if (u->mig_before[s]) {
+            /* the request is pending when the unit blocks */
+            int rc = ABT_thread_migrate_to_pool(u->th, g_mb.pools[u->mig_before[s] - 1]);
+            if (rc == ABT_SUCCESS)
+                vrt_count(c_mbreq_self, 1);
+        }
+        vrt_count(c_mbsteps[k], 1);
+        __atomic_store_n(&u->waiting, s + 1, __ATOMIC_SEQ_CST);
+        if (k == MB_EVENTUAL) {
+            VRT_ABT(ABT_eventual_wait(g_mb.ev[o], NULL));
+        } else if (k == MB_COND) {
+            VRT_ABT(ABT_mutex_lock(g_mb.cmx));
+            while (!g_mb.cond_flag[o])
+                VRT_ABT(ABT_cond_wait(g_mb.cnd, g_mb.cmx));
+            VRT_ABT(ABT_mutex_unlock(g_mb.cmx));
+        } else if (k == MB_SUSPEND) {
+            VRT_ABT(ABT_self_suspend());
+        } else if (k == MB_MUTEX) {
+            VRT_ABT(ABT_mutex_lock(g_mb.mx[o]));
+            VRT_ABT(ABT_mutex_unlock(g_mb.mx[o]));
+        } else if (k == MB_JOIN) {
+            VRT_ABT(ABT_thread_join(g_mb.child[o]));
+        } else {
+            ABT_thread_yield();
+        }
+        VRT_ABT(ABT_self_get_last_pool(&after));
+        if (after != before)
+            vrt_count(c_mbmoved_while_blocking, 1);
+        int pi = mb_pool_index(after);
+        if (pi >= 0)
+            u->slices_in_pool[pi]++;
+    }
+    __atomic_store_n(&u->waiting, 0, __ATOMIC_SEQ_CST);
+    __atomic_store_n(&u->done, 1, __ATOMIC_SEQ_CST);
+    vrt_progress();
+}
+static void *mbsampler_pt(void *arg)
+{
+    (void)arg;
+    while (!__atomic_load_n(&g_mb.sampler_stop, __ATOMIC_SEQ_CST)) {
+        for (int i = 0; i < g_mb.npools; i++) {
+            int32_t nb = pool_num_blocked(g_mb.pools[i]);
+            if (nb < 0) {
+                vrt_violation("block:num-blocked-negative", "pool %d reports %d blocked units (units with migration "
+                              "requests block and get resumed)", i, nb);
+                return NULL;
+            }
+            vrt_count(c_mbsamples, 1);
+        }
+        for (volatile int i = 0; i < 300; i++)
+            ;
+    }
+    return NULL;
+}
+/* wake one blocking step of a unit; returns 1 if it did */
+static int mb_wake(mbunit_t *u, vrt_rng *r)
+{
+    int w = __atomic_load_n(&u->waiting, __ATOMIC_SEQ_CST);
+    if (w == 0 || w <= __atomic_load_n(&u->woken, __ATOMIC_SEQ_CST))
+        return 0;
+    int s = w - 1, k = u->kind[s], o = u->obj[s];
+    if (k == MB_SUSPEND) {
+        ABT_thread_state st = ABT_THREAD_STATE_READY;
+        ABT_thread_get_state(u->th, &st);
+        if (st != ABT_THREAD_STATE_BLOCKED)
+            return 0;
+    }
+    if (k != MB_YIELD && vrt_range(r, 3) == 0) {
+        /* a request issued by somebody else while the unit is (about to be)
+         * blocked; it is handled at the unit's next scheduling point */
+        ABT_thread_state st = ABT_THREAD_STATE_READY;
+        ABT_thread_get_state(u->th, &st);
+        if (st == ABT_THREAD_STATE_BLOCKED &&
+            ABT_thread_migrate_to_pool(u->th, g_mb.pools[vrt_range(r, (uint64_t)g_mb.npools)]) == ABT_SUCCESS)
+            vrt_count(c_mbreq_other, 1);
+    }
+    if (k == MB_EVENTUAL) {
+        VRT_ABT(ABT_eventual_set(g_mb.ev[o], NULL, 0));
+    } else if (k == MB_COND) {
+        VRT_ABT(ABT_mutex_lock(g_mb.cmx));
+        g_mb.cond_flag[o] = 1;
+        VRT_ABT(ABT_cond_broadcast(g_mb.cnd));
+        VRT_ABT(ABT_mutex_unlock(g_mb.cmx));
+    } else if (k == MB_SUSPEND) {
+        VRT_ABT(ABT_thread_resume(u->th));
+    } else if (k == MB_MUTEX) {
+        VRT_ABT(ABT_mutex_unlock(g_mb.mx[o]));
+    } else if (k == MB_JOIN) {
+        __atomic_store_n(&g_mb.child_go[o], 1, __ATOMIC_SEQ_CST);
+    }
+    __atomic_store_n(&u->woken, w, __ATOMIC_SEQ_CST);
+    return 1;
+}
+static void run_blockmig(vrt_rng *r, int idx)
+{
+    memset(&g_mb, 0, sizeof(g_mb));
+    VRT_ABT(ABT_init(0, NULL));
+    g_mb.npools = 2 + (int)vrt_range(r, MBMAXP - 1);
+    static const int pk[] = { ABT_POOL_FIFO, ABT_POOL_FIFO_WAIT, ABT_POOL_RANDWS };
+    static const int sp[] = { ABT_SCHED_BASIC, ABT_SCHED_PRIO, ABT_SCHED_DEFAULT, ABT_SCHED_BASIC_WAIT };
+    int kind = pk[vrt_range(r, 3)], sched = sp[vrt_range(r, 4)];
+    if (sched == ABT_SCHED_BASIC_WAIT)
+        kind = ABT_POOL_FIFO_WAIT;
+    ABT_xstream xs[MBMAXP];
+    for (int i = 0; i < g_mb.npools; i++) {
+        VRT_ABT(ABT_pool_create_basic((ABT_pool_kind)kind, ABT_POOL_ACCESS_MPMC, ABT_FALSE, &g_mb.pools[i]));
+        VRT_ABT(ABT_xstream_create_basic((ABT_sched_predef)sched, 1, &g_mb.pools[i], ABT_SCHED_CONFIG_NULL, &xs[i]));
+    }
+    VRT_ABT(ABT_mutex_create(&g_mb.cmx));
+    VRT_ABT(ABT_cond_create(&g_mb.cnd));
+    g_mb.n = 1 + (int)vrt_range(r, MBMAXU);
+    int nobj = 0;
+    for (int i = 0; i < g_mb.n; i++) {
+        mbunit_t *u = &g_mb.u[i];
+        u->id = i;
+        u->nsteps = 1 + (int)vrt_range(r, MBMAXSTEP);
+        for (int s = 0; s < u->nsteps; s++) {
+            int k = (int)vrt_range(r, s == 0 ? MB_YIELD : MB_NKINDS);
+            u->kind[s] = k;
+            u->obj[s] = nobj;
+            u->mig_before[s] = vrt_range(r, 3) != 0 ? 1 + (int)vrt_range(r, (uint64_t)g_mb.npools) : 0;
+            if (k == MB_EVENTUAL)
+                VRT_ABT(ABT_eventual_create(0, &g_mb.ev[nobj]));
+            if (k == MB_MUTEX) {
+                VRT_ABT(ABT_mutex_create(&g_mb.mx[nobj]));
+                VRT_ABT(ABT_mutex_lock(g_mb.mx[nobj]));
+            }
+            if (k == MB_JOIN)
+                VRT_ABT(ABT_thread_create(g_mb.pools[vrt_range(r, (uint64_t)g_mb.npools)], mbchild_fn, &g_mb.child_go[nobj],
+                                          ABT_THREAD_ATTR_NULL, &g_mb.child[nobj]));
+            nobj++;
+        }
+    }
+    pthread_t samp;
+    pthread_create(&samp, NULL, mbsampler_pt, NULL);
+    ABT_thread ths[MBMAXU];
+    for (int i = 0; i < g_mb.n; i++)
+        VRT_ABT(ABT_thread_create(g_mb.pools[vrt_range(r, (uint64_t)g_mb.npools)], mbunit_fn, &g_mb.u[i], ABT_THREAD_ATTR_NULL,
+                                  &ths[i]));
+    vrt_rng rr = { vrt_next(r) };
+    /* rounds: wait until every unfinished unit is BLOCKED (quiescent point),
+     * check the counters exactly, wake everybody once */
+    for (int round = 0; vrt_num_violations() == 0; round++) {
+        int remaining = 0;
+        for (int i = 0; i < g_mb.n; i++)
+            if (!__atomic_load_n(&g_mb.u[i].done, __ATOMIC_SEQ_CST))
+                remaining++;
+        if (!remaining)
+            break;
+        /* quiescence: every unfinished unit is blocked in a step that has not
+         * been woken, or finished */
+        int quiet = 0;
+        for (int spin = 0; spin < 200000 && !quiet; spin++) {
+            quiet = 1;
+            for (int i = 0; i < g_mb.n && quiet; i++) {
+                mbunit_t *u = &g_mb.u[i];
+                if (__atomic_load_n(&u->done, __ATOMIC_SEQ_CST))
+                    continue;
+                ABT_thread_state st = ABT_THREAD_STATE_READY;
+                if (__atomic_load_n(&u->started, __ATOMIC_SEQ_CST))
+                    ABT_thread_get_state(u->th, &st);
+                int w = __atomic_load_n(&u->waiting, __ATOMIC_SEQ_CST);
+                if (st != ABT_THREAD_STATE_BLOCKED || w == 0 || w <= __atomic_load_n(&u->woken, __ATOMIC_SEQ_CST))
+                    quiet = 0;
+            }
+            if (!quiet)
+                sched_yield();
+        }
+        if (quiet) {
+            /* everybody who is not done is blocked exactly once; children of
+             * join steps spin in some pool (READY/RUNNING, not blocked) */
+            int expect[MBMAXP] = { 0 }, blocked_units = 0;
+            for (int i = 0; i < g_mb.n; i++) {
+                mbunit_t *u = &g_mb.u[i];
+                if (__atomic_load_n(&u->done, __ATOMIC_SEQ_CST))
+                    continue;
+                ABT_pool p;
+                VRT_ABT(ABT_thread_get_last_pool(u->th, &p));
+                int pi = mb_pool_index(p);
+                if (pi >= 0)
+                    expect[pi]++;
+                blocked_units++;
+            }
+            for (int i = 0; i < g_mb.npools; i++) {
+                int32_t nb = pool_num_blocked(g_mb.pools[i]);
+                if (nb != expect[i]) {
+                    vrt_violation("block:num-blocked-inexact",
+                                  "round %d: %d units are blocked and associated with pool %d, but its blocked counter is "
+                                  "%d (%d blocked units in all, %d pools, units carry migration requests when they block)",
+                                  round, expect[i], i, nb, blocked_units, g_mb.npools);
+                    break;
+                }
+            }
+            vrt_count(c_mbexact, 1);
+        }
+        if (vrt_num_violations())
+            break;
+        for (int i = 0; i < g_mb.n; i++)
+            if (!__atomic_load_n(&g_mb.u[i].done, __ATOMIC_SEQ_CST))
+                mb_wake(&g_mb.u[i], &rr);
+        /* yield steps need nobody; give the woken units time to reach their
+         * next blocking step */
+        for (int i = 0; i < g_mb.n; i++) {
+            mbunit_t *u = &g_mb.u[i];
+            int w = __atomic_load_n(&u->waiting, __ATOMIC_SEQ_CST);
+            if (w && u->kind[w - 1] == MB_YIELD)
+                __atomic_store_n(&u->woken, w, __ATOMIC_SEQ_CST);
+        }
+        vrt_progress();
+    }
+    if (vrt_num_violations()) {
+        __atomic_store_n(&g_mb.sampler_stop, 1, __ATOMIC_SEQ_CST);
+        pthread_join(samp, NULL);
+        return;
+    }
+    for (int i = 0; i < g_mb.n; i++) {
+        VRT_ABT(ABT_thread_join(ths[i]));
+        VRT_ABT(ABT_thread_free(&ths[i]));
+    }
+    for (int o = 0; o < nobj; o++)
+        if (g_mb.child[o]) {
+            __atomic_store_n(&g_mb.child_go[o], 1, __ATOMIC_SEQ_CST);
+            VRT_ABT(ABT_thread_join(g_mb.child[o]));
+            VRT_ABT(ABT_thread_free(&g_mb.child[o]));
+        }
+    /* nothing is blocked any more */
+    for (int i = 0; i < g_mb.npools; i++) {
+        int32_t nb = pool_num_blocked(g_mb.pools[i]);
+        VRT_CHECK(nb == 0, "block:num-blocked-nonzero-at-quiescence",
+                  "all units finished, but the blocked counter of pool %d is %d (its stream could never be joined / "
+                  "would terminate too early)", i, nb);
+    }
+    __atomic_store_n(&g_mb.sampler_stop, 1, __ATOMIC_SEQ_CST);
+    pthread_join(samp, NULL);
+    if (vrt_num_violations())
+        return;
+    for (int i = 0; i < g_mb.npools; i++) {
+        vrt_call_begin("ABT_xstream_join with nothing left to run");
+        VRT_ABT(ABT_xstream_join(xs[i]));
+        vrt_call_end();
+        VRT_ABT(ABT_xstream_free(&xs[i]));
+    }
+    for (int i = 0; i < g_mb.n; i++)
+        for (int s = 0; s < g_mb.u[i].nsteps; s++) {
+            int o = g_mb.u[i].obj[s];
+            if (g_mb.u[i].kind[s] == MB_EVENTUAL)
+                VRT_ABT(ABT_eventual_free(&g_mb.ev[o]));
+            if (g_mb.u[i].kind[s] == MB_MUTEX)
+                VRT_ABT(ABT_mutex_free(&g_mb.mx[o]));
+        }
+    VRT_ABT(ABT_cond_free(&g_mb.cnd));
+    VRT_ABT(ABT_mutex_free(&g_mb.cmx));
+    for (int i = 0; i < g_mb.npools; i++)
+        VRT_ABT(ABT_pool_free(&g_mb.pools[i]));
+    VRT_ABT(ABT_finalize());
+    if (idx < 2)
+        vrt_sample("blockmig scenario %d: %d streams with private %s pools (%s), %d units with 1-%d blocking steps (%s...), "
+                   "2/3 of the steps carry a migration request to a random pool when they block, 1/3 get one while blocked; "
+                   "counters compared exactly with the units' pools at every all-blocked point", idx, g_mb.npools,
+                   w_pool_kind_name(kind), w_sched_name(sched), g_mb.n, MBMAXSTEP, mb_name[0]);
+    vrt_signature_add("mb:p%d,%s,%s,n%d", g_mb.npools, w_pool_kind_name(kind), w_sched_name(sched), g_mb.n > 6 ? 7 : g_mb.n);
+    vrt_count(c_mbscen, 1);
+    vrt_count(c_cases, 1);
+}
+
+/* ======================================================================= */
 /* mode=susp (C11 part A): a suspended ULT runs again only after a resume, and
  * exactly once per resume, even if the resume comes the moment BLOCKED is
  * observable */
@@ -2883,6 +3203,21 @@ int main(int argc, char **argv)
         int n = (int)vrt_arg_int("scenarios", 40);
         for (int i = 0; i < n && vrt_num_violations() == 0; i++)
             run_block_scenario(&r, i, (int)vrt_arg_int("max-es", 4));
+    } else if (!strcmp(mode, "blockmig")) {
+        c_mbscen = vrt_counter("blockmig_scenarios");
+        for (int i = 0; i < MB_NKINDS; i++) {
+            char nm[64];
+            snprintf(nm, sizeof(nm), "blockmig_step_%s", mb_name[i]);
+            c_mbsteps[i] = vrt_counter(nm);
+        }
+        c_mbreq_self = vrt_counter("migration_requests_pending_when_blocking");
+        c_mbreq_other = vrt_counter("migration_requests_issued_while_blocked");
+        c_mbmoved_while_blocking = vrt_counter("units_resumed_in_another_pool");
+        c_mbexact = vrt_counter("blockmig_exact_counter_checks");
+        c_mbsamples = vrt_counter("blockmig_counter_samples");
+        int n = (int)vrt_arg_int("scenarios", 40);
+        for (int i = 0; i < n && vrt_num_violations() == 0; i++)
+            run_blockmig(&r, i);
     } else if (!strcmp(mode, "susp")) {
         c_suspends = vrt_counter("suspend_resume_round_trips");
         c_susp_scen = vrt_counter("susp_scenarios");
